@@ -178,6 +178,9 @@ def run(ctx, model_ok):
     for ch in colour_changes:
         ctx.failing.append({'input': {'trace_text': ch['text']}, 'expected': ch['plain'], 'actual': ch['colored_without_ansi'],
                             'why': 'colouring changed the text of the trace line'})
+    # the command line: --show-tid / --no-show-tid / --color / --no-color reach the line builders
+    from . import cli_common
+    cli_common.run(ctx, ['traces', 'kevents', 'callstacks', 'logs'], 32 if ctx.quick() else 500)
     ctx.samples = [{'switches': dict(zip(SW, info[0][2])), 'impl_event_line': out[0][0]['items'][:1], 'impl_trace_line': out[0][2]['items'][:1]}]
     if model_ok:
         bad, errors = vlib.run_model_cases('C14', HEADER, 'gcase', 'gcheck', cases, per_file=8)
